@@ -16,6 +16,18 @@ CHECKS = {
             "Held = no disagreement on the sessions observed; says nothing about configurations not drawn.",
             "Trusts the harness network (in-memory PacketConn) and Go's synctest virtual clock; crypto randomness is not replayable.",
             "DESIGN.md §4 C01"),
+    "C02": ("fault_enumeration",
+            "runtime monitoring under enumerated fault masks: real endpoints on a virtual-time network (testing/synctest); "
+            "oracle = both HandshakeContext return nil within the retransmission bound, then a payload round trip; "
+            "failing masks are delta-debugged to a minimal core",
+            "Per handshake variant (15: full ECDSA/RSA, PSK, ECDHE-PSK, client-auth, resumed, MTU 100, CID, CID+MTU, CBC without "
+            "hello-verify, DTLS 1.3 direct/HRR/client-auth/MTU 256/dual-stack) every drop-only mask over the first N datagrams of each "
+            "direction (N=4 quick, 6 thorough) and every five-action mask for small N is executed, plus PRNG masks for N=10. "
+            "Completion is required within H(f)=sum_{i<f+3} min(2^i s,60 s) of virtual time. Unbounded 'any finite loss' is restated "
+            "as this bounded-progress law; masks beyond the enumerated prefix are only sampled.",
+            "Trusts the in-memory network and synctest's virtual clock; the bound H(f) is a calibrated restatement of 'within the time "
+            "the retransmission schedule needs'.",
+            "DESIGN.md §4 C02"),
 }
 
 NOT_YET = "monitor not built yet in this session (see DESIGN.md for the planned design)"
